@@ -4,8 +4,26 @@ import driver
 from driver import corr_run
 
 
+_UPSTREAM = None
+
+
+def upstream_dir():
+    """go-ethereum v1.12.0 as resolved by /repo's go.mod (module cache; nothing is fetched)"""
+    global _UPSTREAM
+    if _UPSTREAM is None:
+        rc, out = driver.sh(["go", "list", "-m", "-f", "{{.Dir}}", "github.com/ethereum/go-ethereum"], cwd=driver.REPO, env=driver.GOENV)
+        if rc != 0:
+            raise RuntimeError("cannot locate go-ethereum module: " + out)
+        _UPSTREAM = out.strip().split("\n")[-1]
+    return _UPSTREAM
+
+
 def gen_all():
-    """regenerate coq/Gen/*.v from /repo's current source (T-gen)"""
+    """T-gen: regenerate coq/Gen/Digests.v and coq/Gen/Tables.v from /repo's current source and from the
+    live instruction tables of the freshly built harness (files are rewritten only when their content changes)"""
+    rc, out = driver.sh([driver.VH, "gen", "--out", os.path.join(driver.COQ, "Gen"), "--upstream", upstream_dir()], env=driver.GOENV, timeout=600)
+    if rc != 0:
+        raise RuntimeError("vh gen failed: " + out[-3000:])
     return True
 
 
